@@ -552,10 +552,12 @@ impl Cpu {
         core::mem::swap(&mut self.gs_base, &mut self.kernel_gs_base);
     }
 
-    /// full simulated RFLAGS given the native arithmetic bits
+    /// full simulated RFLAGS given the native arithmetic bits.  Bit 8 (TF) of `rflags_sys` is the
+    /// *simulated* trap flag (a debugger single-stepping the kernel): it is only ever a bit of the
+    /// image - the native TF belongs to the monitor and never shows.
     pub fn rflags_value(&self, native: u64) -> u64 {
         const ARITH: u64 = 0x8d5 | 0x400;
-        (native & ARITH) | 2 | (self.rflags_sys & !ARITH & !0x200 & !0x100) | ((self.iflag as u64) << 9)
+        (native & ARITH) | 2 | (self.rflags_sys & !ARITH & !0x200) | ((self.iflag as u64) << 9)
     }
 
     // ---- ports -----------------------------------------------------------------------------
